@@ -205,6 +205,18 @@ PROPS["C15"] = dict(
     assumptions=["global monotone clock", "metadata store versions are log indices >= 1 (C13)"],
 )
 
+PROPS["C14"] = dict(
+    title="Table catalogue: unique names, never-reused ids, empty when (re)created",
+    design_ref="DESIGN.md section 7 (C14)",
+    run_files=["Run/C14Run.v"],
+    engines=[dict(cmd=["c14"], corr="Model.Catalogue.{cexec,to_start,to_stop} <-> table.Manager.createTable/incAndGetIDSeq/DeleteTable/GetTables, diffTables", timeout=900)],
+    level_text="Theorems for every interleaving of create/delete/list calls of any number of managers at single-store-operation granularity: ids of created tables are pairwise distinct and increasing (inductive invariant over the id sequence's compare-and-set), an existing name is refused, the three steps of a creation succeed when undisturbed, the second of two racing creations of one name fails, listing is exact, diffTables starts/stops exactly the right shards, per-id isolation of table data. Real managers run over the real kv.LFSM CAS semantics behind a scheduler (all interleavings of call pairs + random schedules), real diffTables on random inputs, and a real Manager on a NodeHost for emptiness of recreated tables, isolation and slash names.",
+    level_note="Trusts: Coq kernel; genconst (tableIDsRangeStart); table names are path segments (names with '/' are rejected by the repaired code); emptiness of a new table rests on dragonboat giving a fresh shard id a fresh state machine directory (exercised on a real NodeHost, not proved); Restore's catalogue steps use the same id sequence (covered by the invariant) but are exercised only sequentially (C07).",
+    technique="Coq proof (inductive invariant over an interleaving semantics of store programs, permutation reasoning on pending ids) + scheduler-controlled differential check of table.Manager",
+    trusted=["Model/Catalogue.v hand-written model of the catalogue programs in storage/table/manager.go"],
+    assumptions=["metadata store versions are log indices >= 1 and compared only for existing keys (C13)", "table names contain no '/'"],
+)
+
 # Properties not (yet) claimed, each with a reason; kept current as checks are added.
 _PENDING = "check not built yet in this development; will be claimed once its model, theorems and correspondence harness exist"
 NOT_APPLICABLE = [dict(property_id="C%02d" % i, reason=_PENDING) for i in range(1, 20) if "C%02d" % i not in PROPS]
